@@ -27,6 +27,8 @@ mod io_faults;
 mod memory;
 #[path = "../../scen/misconfig.rs"]
 mod misconfig;
+#[path = "../../scen/oob.rs"]
+mod oob;
 #[path = "../../scen/optgen.rs"]
 mod optgen;
 #[path = "../../scen/rt.rs"]
@@ -48,7 +50,7 @@ impl Engine for St {
     }
 
     fn properties(&self) -> Vec<&'static str> {
-        vec!["C01", "C02", "C03", "C04", "C05", "C06", "C07", "C11", "C12", "C13", "C16", "C17", "C18", "C19"]
+        vec!["C01", "C02", "C03", "C04", "C05", "C06", "C07", "C11", "C12", "C13", "C15", "C16", "C17", "C18", "C19"]
     }
 
     fn plan(&self, prop: &str, tier: &str) -> Vec<(String, u64)> {
@@ -66,6 +68,7 @@ impl Engine for St {
             "C12" => vec![p("concat.xz", 40000, 1_000_000), p("concat.lzip", 20000, 500_000)],
             "C13" => vec![p("determ.repeat", 12000, 400_000), p("determ.partition", 12000, 400_000)],
             "C16" => vec![p("exact", 80000, 3_000_000)],
+            "C15" => vec![p("oob.encode", 6000, 300_000), p("oob.decode", 40000, 2_000_000)],
             "C17" => vec![p("mem.encoder", 1200, 20000), p("mem.decoder.lzma", 4000, 60000), p("mem.decoder.lzma2", 2000, 30000), p("mem.limit", 8000, 100000)],
             "C19" => vec![p("misconfig", 30000, 600_000)],
             "C18" => vec![p("sizes", 40000, 1_500_000)],
@@ -82,6 +85,7 @@ impl Engine for St {
             "C03" | "C11" => interop::gen(prop, scen, k, seed, tier),
             "C04" => corrupt::gen(prop, scen, k, seed, tier),
             "C06" => hostile::gen(prop, scen, k, seed, tier),
+            "C15" => oob::gen(prop, scen, k, seed, tier),
             "C17" => memory::gen(prop, scen, k, seed, tier),
             "C19" => misconfig::gen(prop, scen, k, seed, tier),
             _ => Case::default(),
@@ -103,6 +107,7 @@ impl Engine for St {
             "corrupt" => corrupt::exec(case, keep_log),
             "hostile" => hostile::exec(case, keep_log),
             "mem" => memory::exec(case, keep_log),
+            "oob" => oob::exec(case, keep_log),
             "misconfig" => misconfig::exec(case, keep_log),
             _ => RunResult::default(),
         }
@@ -149,6 +154,12 @@ impl Engine for St {
                 level: "exploration",
                 rule: "hostile.random: random / low-entropy / zero strings, raw or behind the format's magic or a plausible header, into LZMA (.lzma header), LZMA2, XZ, LZIP, each BCJ, Delta and BCJ2 (four streams cut from the bytes) readers. hostile.mutated: valid streams with 1-4 storage faults, XZ header/footer CRCs recomputed in half of the runs so damage reaches LZMA2. hostile.fields: one size/count/property field at an extreme (index record count up to 2^62 with CRC fix-up, dictionary property 40, LZIP 512 MiB dictionary, member_size lies, .lzma dict 2^32-1 / size 2^64-1, LZMA2 chunk sizes). hostile.params: valid stream, hostile caller parameters (props 0-255, dict 0..2^32-1, size 0..2^64-1, lc/lp/pb out of range). hostile.many: up to 60000 (200000 thorough) empty XZ streams / LZIP members / 1-byte LZMA2 chunks. After the first error three more reads are issued. Monitors: panic (caught), abort / stack overflow (worker death attributed to the seed), sticky Interrupted, output cap len*20000+16 MiB, peak heap <= declared dictionary + 64*len + 4*output + 16 MiB + 2*largest read buffer.".into(),
                 assumptions: vec!["the declared dictionary size is taken from a tolerant scan of the bytes (largest plausible declaration)".into(), "allocation failure cannot be injected as a recoverable fault in Rust; requests above 8 GiB are refused and abort the worker, which is reported".into()],
+                real: real.clone(), stubs: stubs.clone(), exhaustive_part: None,
+            },
+            "C15" => PropMeta {
+                level: "exploration",
+                rule: "monitors over workloads that reach the unsafe blocks of the `optimization` feature. oob.encode: formats x options with dictionaries 4096-65536, inputs of 0-24 bytes / around the dictionary size / 270-900 KB (the window moves) / long-distance repeats at distance dict-1, dict, dict+1, dict-273, 25% with the position wrap (SIMD renormalisation over the aligned tables). oob.decode: valid LZMA/LZMA2/XZ(check none) streams with 1-4 faults inside the compressed payload and chunk headers so that the range decoder runs off the end of its 64 KiB buffer inside direct-bit runs (probes direct_bits_asm / direct_bits_portable / direct_bits_past_buffer_end count it). Monitors: hook H5 shadow assertions (a violated precondition of an unsafe block panics with VERIF-OOB before the access and is the only monitor that sees the inline assembly's loads); thorough tier: the same binary built with AddressSanitizer (a report kills the worker and is attributed to the seed) and tiny encoder cases under Miri (the assembly cannot run there). Only out-of-bounds findings are reported by this check. Non-trivial: non-empty input / at least one fault applied.".into(),
+                assumptions: vec!["the shadow assertions restate the preconditions correctly (they were written from the unsafe blocks' own SAFETY comments)".into(), "ASan does not see loads inside asm!; Miri cannot execute asm!".into()],
                 real: real.clone(), stubs: stubs.clone(), exhaustive_part: None,
             },
             "C17" => PropMeta {
